@@ -112,7 +112,7 @@ theorem elements_edges_injective (verts : List Pt) (regions : List (List Int)) (
     (∀ p ∈ es, ∀ q ∈ es, (p.2 = q.2 ∨ p.2 = (q.2.2, q.2.1)) → p = q) ∧
     (es.map (·.1)).Nodup ∧ ∀ p ∈ es, 1 ≤ p.1 := by
   intro es
-  obtain ⟨_, _, h3, h4⟩ := elementsState_inv verts regions md2
+  obtain ⟨_, _, h3, h4, _, _⟩ := elementsState_inv verts regions md2
   exact ⟨h4, h3.1, h3.2⟩
 
 /-! ### one cell per kept region -/
@@ -172,12 +172,37 @@ theorem createLattice_assert (el : Elements) (h : ∃ p ∈ el.edges, p.2.1 = p.
     rw [List.find?_eq_none] at hf
     exact absurd (by simpa using hpp) (hf p hp)
 
-/-- finding D19 (signature rounded-corners-coincide): a region with two corners less than half a rounding step
-    apart yields a mesh edge `[n, n]`, so `create_lattice` raises -/
-theorem coinciding_corners_witness :
-    ∃ eid, createLattice (createLatticeElements
-      [⟨0, 0⟩, ⟨1, 0⟩, ⟨1, 1⟩, ⟨9999/10000, 10001/10000⟩, ⟨0, 1⟩] [[0, 1, 2, 3, 4]] none) = .sameVertexTwice eid := by
+/-- with the test `if vertex_number_1 == vertex_number_2: continue` no stored mesh edge joins a vertex to itself,
+    and both ends of every stored mesh edge are stored vertices -/
+theorem elements_no_self_edge (verts : List Pt) (regions : List (List Int)) (md2 : Option Rat) :
+    let el := createLatticeElements verts regions md2
+    ∀ p ∈ el.edges, p.2.1 ≠ p.2.2 ∧ p.2.1 ∈ el.vertices.map (·.1) ∧ p.2.2 ∈ el.vertices.map (·.1) := by
+  intro el p hp
+  obtain ⟨_, _, _, _, h5, h6⟩ := elementsState_inv verts regions md2
+  exact ⟨h5 p hp, h6 p hp⟩
+
+/-- hence `create_lattice` never trips `SmallEdge`'s assertion on the dictionaries of `create_lattice_elements` -/
+theorem createLattice_never_asserts (verts : List Pt) (regions : List (List Int)) (md2 : Option Rat) :
+    let el := createLatticeElements verts regions md2
+    createLattice el = .ok (Mesh.ofLists (latticeVertices el) (latticeEdges el) (latticeCells el)) := by
+  intro el
+  exact createLattice_ok el fun p hp => (elements_no_self_edge verts regions md2 p hp).1
+
+/-- finding D21 (signature rounded-corners-coincide, repaired in /repo): the upstream loop body, which lacks that
+    test, stores the mesh edge `[1, 1]` for a ridge whose two ends round to the same point, and `create_lattice`
+    raises on it -/
+theorem stepEdgeUpstream_self_edge_witness :
+    (stepEdgeUpstream { vs := [], es := [], cellE := [], cellV := [] }
+        (roundPt ⟨1, 1⟩, roundPt ⟨9999/10000, 10001/10000⟩)).es = [(1, (1, 1))] ∧
+    ∃ eid, createLattice { vertices := [(1, ⟨1, 1⟩)], edges := [(1, (1, 1))], cells := [] } = .sameVertexTwice eid := by
+  refine ⟨by decide +kernel, ?_⟩
   apply createLattice_assert
+  decide +kernel
+
+/-- the repaired loop body on the same ridge: the vertex is interned, no mesh edge is stored -/
+theorem stepEdge_coinciding_corners :
+    (stepEdge { vs := [], es := [], cellE := [], cellV := [] }
+        (roundPt ⟨1, 1⟩, roundPt ⟨9999/10000, 10001/10000⟩)).es = [] := by
   decide +kernel
 
 /-! non-vacuity -/
@@ -210,17 +235,59 @@ example :
 example : ∀ p ∈ (createLatticeElements [⟨0, 0⟩, ⟨0, 1⟩, ⟨1, 1⟩, ⟨1, 0⟩] [[0, 1, 2, 3]] none).edges, p.2.1 ≠ p.2.2 := by
   decide +kernel
 
-/- PENDING:
-   cell_walk — for every entry `(key, cellE)` that `processRegion` stores for a region `c` (under `WInv`):
-     `temp_vertex_for_cell = dupOpen (W ++ W.take 1)` and
-     `cellCycle es key cellE = if key < 0 then W.reverse else W`, where `W` is the list of vertex ids of the rounded
-     corners of `c` (so that `uniform_orientation_core` applies to the final cycles of `createLattice` for all inputs).
-     The two halves around it are proved (`getEnum_entry`: the signed id names the stored edge whose first/last vertex
-     is the start of the step; `area_walk` + `uniform_orientation_core`); the link is compared exactly per run (K: cells
-     and area signs of the model's lattice vs the real one) and `Cell.get_area_sign()` is checked on every cell (S).
-   tess_consistent — `(createLattice el = .ok m) → m.Consistent` under "no two corners of a region coincide after
-     rounding and every region is a simple polygon", via `WFInput` and `ofLists_consistent` of C09; decided per run by
-     the driver op `consistent` (`Mesh.Consistent` evaluated on the dump of the real lattice and on the model's lattice).
--/
+/-! ### for all inputs: the stored cells are the regions' corner cycles, one rotational sense, consistency -/
+
+/-- hypothesis of the next theorems: no two corners of a kept bounded region coincide after rounding, and every
+    such region has at least two corners (`GoodRegions`); non-vacuity: -/
+example : GoodRegions [⟨0, 0⟩, ⟨0, 1⟩, ⟨1, 1⟩, ⟨1, 0⟩] [[0, 1, 2, 3], [], [0, -1]] := by
+  intro c hc hb
+  simp at hc
+  rcases hc with rfl | rfl | rfl
+  · exact ⟨by decide +kernel, by decide⟩
+  · exact absurd hb (by decide)
+  · exact absurd hb (by decide)
+
+/-- every stored cell `(key, signed edge ids)` is the closed walk round the rounded corners `P` of a kept bounded
+    region: `W` are the vertex ids of `P` (`Forall₂`), every signed edge id names the stored mesh edge of its step
+    (`SignedEdge`: positive — stored as `[a, b]`, negative — stored reversed), and
+    `key = -cnum · sign(area of temp_vertex_for_cell)` (`CellRec`) -/
+theorem cell_walk (verts : List Pt) (regions : List (List Int)) (md2 : Option Rat)
+    (h : GoodRegions verts (removeInfiniteRegions verts md2 regions)) :
+    let el := createLatticeElements verts regions md2
+    ∀ e ∈ el.cells, CellRec (IsRegion verts (removeInfiniteRegions verts md2 regions)) el.vertices el.edges e :=
+  (elements_ginv verts regions md2 h).2.2
+
+/-- the vertex cycle `create_lattice` builds for a stored cell is the list of vertex ids of the region's rounded
+    corners — `P` itself as points — reversed exactly when the key is negative -/
+theorem cell_cycle (verts : List Pt) (regions : List (List Int)) (md2 : Option Rat)
+    (h : GoodRegions verts (removeInfiniteRegions verts md2 regions)) :
+    let el := createLatticeElements verts regions md2
+    ∀ e ∈ el.cells, ∃ P, IsRegion verts (removeInfiniteRegions verts md2 regions) P ∧
+      (cellCycle el.edges e.1 e.2).map (ptOf el.vertices) = (if e.1 < 0 then P.reverse else P) := by
+  intro el e he
+  obtain ⟨hs, _, hcells⟩ := elements_ginv verts regions md2 h
+  obtain ⟨P, _, _, hok, _, _, _, _, _, hpts⟩ := cellCycle_of_rec hs.1 hs.2.2.1 (hcells e he)
+  exact ⟨P, hok, hpts⟩
+
+/-- all cells are stored in the same rotational sense: every final vertex cycle of a region of non-zero area
+    (key ≠ 0) has area sign −1, whatever the sense of Qhull's region list -/
+theorem uniform_orientation (verts : List Pt) (regions : List (List Int)) (md2 : Option Rat)
+    (h : GoodRegions verts (removeInfiniteRegions verts md2 regions)) :
+    let el := createLatticeElements verts regions md2
+    ∀ e ∈ el.cells, e.1 ≠ 0 → areaSign ((cellCycle el.edges e.1 e.2).map (ptOf el.vertices)) = -1 :=
+  uniform_orientation' verts regions md2 h
+
+/-- the three lists handed to the parser pattern are well-formed in the sense of C09 -/
+theorem tess_wellformed (verts : List Pt) (regions : List (List Int)) (md2 : Option Rat)
+    (h : GoodRegions verts (removeInfiniteRegions verts md2 regions)) :
+    let el := createLatticeElements verts regions md2
+    WFInput (latticeVertices el) (latticeEdges el) (latticeCells el) :=
+  tess_wf verts regions md2 h
+
+/-- the lattice is a consistent mesh (through `ofLists_consistent` of C09) -/
+theorem tess_consistent (verts : List Pt) (regions : List (List Int)) (md2 : Option Rat)
+    (h : GoodRegions verts (removeInfiniteRegions verts md2 regions)) :
+    ∃ m, createLattice (createLatticeElements verts regions md2) = .ok m ∧ m.Consistent = true :=
+  ⟨_, createLattice_never_asserts verts regions md2, tess_consistent' verts regions md2 h⟩
 
 end Forsys.Tess
